@@ -388,11 +388,21 @@ impl<'a> Parser<'a> {
             match unit {
                 'K' => {
                     self.consume('K')?;
-                    size *= 1024;
+                    size = size
+                        .checked_mul(1024)
+                        .ok_or_else(|| ESpecError::InvalidNumber {
+                            position: self.pos,
+                            error: "Block size too large".to_string(),
+                        })?;
                 }
                 'M' => {
                     self.consume('M')?;
-                    size *= 1024 * 1024;
+                    size = size.checked_mul(1024 * 1024).ok_or_else(|| {
+                        ESpecError::InvalidNumber {
+                            position: self.pos,
+                            error: "Block size too large".to_string(),
+                        }
+                    })?;
                 }
                 'G' | 'T' | 'P' => {
                     return Err(ESpecError::InvalidUnit(unit));
